@@ -112,11 +112,10 @@ class CfdpTlv(AbstractTlvBase):
             )
 
         value = bytearray()
-        if len(data) > 2:
-            length = data[1]
-            if 2 + length > len(data):
-                raise BytesTooShortError(length + 2, len(data))
-            value.extend(data[2 : 2 + length])
+        length = data[1]
+        if 2 + length > len(data):
+            raise BytesTooShortError(length + 2, len(data))
+        value.extend(data[2 : 2 + length])
         return cls(tlv_type=tlv_type, value=value)
 
     @property
